@@ -152,6 +152,53 @@ func discharge(obls []*Obligation, scratch string, timeout int, thorough bool) *
 		}
 		wg.Wait()
 	}
+	// reachability probes of one function: solved in order until the first reachable return
+	{
+		byFn := map[string][]*Obligation{}
+		var fns []string
+		for _, o := range obls {
+			if o.Probe && strings.Contains(o.Kind, "reach.ret") {
+				if _, ok := byFn[o.Fn]; !ok {
+					fns = append(fns, o.Fn)
+				}
+				byFn[o.Fn] = append(byFn[o.Fn], o)
+			}
+		}
+		var wg sync.WaitGroup
+		sem := make(chan struct{}, 12)
+		var mu sync.Mutex
+		for _, fn := range fns {
+			wg.Add(1)
+			go func(list []*Obligation) {
+				defer wg.Done()
+				sem <- struct{}{}
+				defer func() { <-sem }()
+				found := false
+				for _, o := range list {
+					if found {
+						o.Status, o.Solver, o.batchDone = "skipped", "-", true
+						continue
+					}
+					h := fmt.Sprintf("%x", sha1.Sum([]byte(o.SMT)))
+					file := filepath.Join(scratch, "probe-"+h+".smt2")
+					_ = os.WriteFile(file, []byte(o.SMT), 0o644)
+					r := race(file, solvers[:1], 5)
+					if r.status != "sat" && r.status != "unsat" {
+						r = race(file, solvers, timeout)
+					}
+					mu.Lock()
+					st.secs += r.secs
+					st.queries++
+					mu.Unlock()
+					o.Status, o.Solver, o.Secs, o.batchDone = r.status, r.solver, r.secs, true
+					if r.status == "sat" {
+						found = true
+					}
+				}
+			}(byFn[fn])
+		}
+		wg.Wait()
+	}
 	for _, o := range obls {
 		if o.batchDone {
 			continue
